@@ -30,6 +30,8 @@ class Tpl:
         self.name = name
         self.params = []     # (kind, name) kind in value / ref / const / range
         self.locals = None   # K of `int l1 = K;` or None
+        self.xdecl = ""      # further local declarations (text) ...
+        self.xlocals = []    # ... and the variables they declare: [name, initialiser tree]
         self.locs = []
         self.bps = []        # ids
         self.init = 0
@@ -142,7 +144,7 @@ def render_xml(m, queries=None):
                                     prob=t_prob(e.prob)[0] if e.prob is not None else None,
                                     controllable=e.ctrl, order=ORDERS[e.order]))
         tpls.append(X.template(t.name, params=params_text(t.params) if t.params else None,
-                               decl=("int l1 = %d;" % t.locals) if t.locals is not None else None,
+                               decl=((("int l1 = %d;" % t.locals) if t.locals is not None else "") + t.xdecl) or None,
                                locations=locs, branchpoints=t.bps, init=t.locs[t.init].lid if t.locs else None,
                                transitions=trs))
     return X.nta(GDECL + (" int gextra = %d;" % m.gextra if m.gextra is not None else ""), tpls, system_text(m), queries)
@@ -167,6 +169,8 @@ def render_xta(m, chain=True):
         s += "process %s(%s) {\n" % (t.name, params_text(t.params))
         if t.locals is not None:
             s += "int l1 = %d;\n" % t.locals
+        if t.xdecl:
+            s += t.xdecl + "\n"
         st = []
         for l in t.locs:
             if l.inv is None and l.rate is None:
@@ -226,7 +230,7 @@ def expected(m, xml=True):
         tj = {"name": t.name,
               "params": [[n, PARAM_TYPE[k]] for k, n in t.params],
               "unbound": len(t.params),
-              "locals": [["l1", "(CONSTANT:INT %d)" % t.locals]] if t.locals is not None else [],
+              "locals": ([["l1", "(CONSTANT:INT %d)" % t.locals]] if t.locals is not None else []) + [list(x) for x in t.xlocals],
               "locations": [[i, l.sym(), l.kind, t_inv(l.inv, l.invstyle)[1] if l.inv is not None else "()",
                              t_rate(l.rate)[1] if l.rate is not None else "()"] for i, l in enumerate(t.locs)],
               "branchpoints": [[j, "_" + b] for j, b in enumerate(t.bps)],
@@ -348,6 +352,13 @@ def build(choose, common=False, bp_base=True):
         else:
             t.params = []
         t.locals = [base + 701, None][choose(2, "%s.locals" % t.name)] if ti < 2 else None
+        # a type name that lives in one template's scope and is an ordinary variable name in the next template
+        if ti == 0 and choose(2, "T1.localtypedef"):
+            t.xdecl = " typedef int[0,3] sc_t; sc_t l2 = 2;"
+            t.xlocals = [["l2", "(CONSTANT:INT 2)"]]
+        if ti == 1 and choose(2, "T2.reusedname"):
+            t.xdecl = " const int sc_t = 7; int l3 = sc_t + 1;"
+            t.xlocals = [["sc_t", "(CONSTANT:INT 7)"], ["l3", "(PLUS (IDENTIFIER sc_t) (CONSTANT:INT 1))"]]
         nl = ([3, 1, 2, 4][choose(4, "%s.nlocs" % t.name)]) if ti == 0 else ([1, 2][choose(2, "%s.nlocs" % t.name)] if ti == 1 else 1)
         for li in range(nl):
             if common:
